@@ -304,6 +304,32 @@ theorem C03_single_entry_targets (env : Env) (root : Root) (path : Bytes) (ty : 
     Safe (Disc false) (Root.create env root path ty) (fun _ => True) :=
   root_create_safe env root path ty hr hp
 
+/-- calls that do not open `.` or `..` -/
+def NoDots : Call → Prop
+  | .openat _ name _ _ => name ≠ Path.dot ∧ name ≠ Path.dotdot
+  | _ => True
+
+theorem noDotsDiagOk : DiagOk NoDots where
+  gettid := trivial
+  geteuid := trivial
+  probe := fun _ _ => trivial
+  readlinkAbs := fun _ _ => trivial
+  close := fun _ => trivial
+  dup := fun _ => trivial
+
+/-- **the creating open of `create_file` never names `.` or `..`**, whatever the open flags and whatever the
+environment answers.  This is what keeps `create_file("..", O_PATH)` inside the root: with `O_PATH` the kernel drops
+`O_CREAT` and the call would be a plain lookup of the parent of the resolved directory (finding F24). -/
+theorem C03_create_file_open_never_dots (dir : Fd) (name : Bytes) (flags perm : Nat) :
+    Safe NoDots (Root.createFileOpen dir name flags perm) (fun _ => True) := by
+  unfold Root.createFileOpen
+  split
+  · exact trivial
+  · rename_i hname
+    refine Safe.weaken (G.openat_safe noDotsDiagOk dir name _ perm ?_)
+    intro _
+    exact ⟨fun h => hname (Or.inl h), fun h => hname (Or.inr h)⟩
+
 /-! ## Non-vacuity -/
 
 example : ProperName b!"a" := by refine ⟨by decide, by decide, by decide⟩
